@@ -30,7 +30,9 @@ def parseOp (t : String) : Option (Op Sym) :=
   match fields t with
   | ["k", t, k] => do some (.installKeys (← t.toNat?) (← k.toNat?))
   | ["sr", t] => do some (.sendRtp (← t.toNat?))
-  | ["sw", t, p] => do some (.sendRaw (← t.toNat?) (p = "1"))
+  | ["sw", t, p] => do some (.sendRaw (← t.toNat?) (p = "1") true)
+  | ["sw", t, p, e] => do some (.sendRaw (← t.toNat?) (p = "1") (e = "1"))
+  | ["ab", t, on] => do some (.setAbsSendTime (← t.toNat?) (on = "1"))
   | ["sc", t] => do some (.sendRtcp (← t.toNat?))
   | ["sb", t] => do some (.syncBye (← t.toNat?))
   | ["rr", t, w, v] => do some (.recvRtp (← t.toNat?) (← parseWire w) (v = "1"))
